@@ -310,6 +310,93 @@ func (p *Prog) TPkg(relPath string) *packages.Package {
 // Func finds a function by module-relative package path and name: "Name" for package-level
 // functions, "Type.Name" for methods (pointer or value receiver). nil if absent.
 func (p *Prog) Func(relPath, name string) *ssa.Function {
+	if fn := p.funcExact(relPath, name); fn != nil {
+		return fn
+	}
+	// a method that became a plain function taking the former receiver first, or the reverse: the
+	// SSA parameter list is the same either way (the receiver is parameter 0)
+	sp := p.Pkg(relPath)
+	if sp == nil {
+		return nil
+	}
+	if i := strings.Index(name, "."); i >= 0 {
+		tn, mn := name[:i], name[i+1:]
+		if f, ok := sp.Members[mn].(*ssa.Function); ok && len(f.Params) > 0 {
+			if n := namedOf(f.Params[0].Type()); n != nil && n.Obj().Name() == tn && n.Obj().Pkg() == sp.Pkg {
+				return f
+			}
+		}
+		return nil
+	}
+	var found *ssa.Function
+	for _, m := range sp.Members {
+		t, ok := m.(*ssa.Type)
+		if !ok {
+			continue
+		}
+		if fn := p.funcExact(relPath, t.Name()+"."+name); fn != nil {
+			if found != nil {
+				return nil // ambiguous
+			}
+			found = fn
+		}
+	}
+	if found != nil {
+		loadInventory()
+		// only when the method is new (the plain function of that name is the one that was known)
+		if inventory[modPath+"/"+relPath+"."+namedRecv(found)+"."+name] {
+			return nil
+		}
+	}
+	return found
+}
+
+// stripRecv: "pkg/path.Recv.name" → "pkg/path.name" (keys of plain functions are returned unchanged).
+func stripRecv(key string) string {
+	i := strings.LastIndex(key, "/")
+	head, tail := key[:i+1], key[i+1:]
+	parts := strings.Split(tail, ".")
+	if len(parts) == 3 {
+		return head + parts[0] + "." + parts[2]
+	}
+	return key
+}
+
+// tableKey: the key under which fn is listed in a table keyed by function — its own key, or, for a
+// function that changed between method and plain function, the one listed key that differs only in
+// the receiver.
+func tableKey[T any](table map[string]T, fn *ssa.Function) string {
+	k := fnKey(fn)
+	if _, ok := table[k]; ok {
+		return k
+	}
+	want := stripRecv(k)
+	found := ""
+	for tk := range table {
+		if stripRecv(tk) == want {
+			if found != "" {
+				return k
+			}
+			found = tk
+		}
+	}
+	if found != "" {
+		return found
+	}
+	return k
+}
+
+func namedRecv(fn *ssa.Function) string {
+	if fn.Signature.Recv() == nil {
+		return ""
+	}
+	if n := namedOf(fn.Signature.Recv().Type()); n != nil {
+		return n.Obj().Name()
+	}
+	return ""
+}
+
+func (p *Prog) funcExact(relPath, name string) *ssa.Function {
 	sp := p.Pkg(relPath)
 	if sp == nil {
 		return nil
@@ -344,7 +431,6 @@ func (p *Prog) Func(relPath, name string) *ssa.Function {
 	return nil
 }
 
-// Funcs returns all first-party source functions (including anonymous ones), sorted by key.
 func (p *Prog) Funcs() []*ssa.Function { return p.allFns }
 
 // FuncsIn returns the source functions (including anonymous) of the given module-relative packages
